@@ -3051,9 +3051,21 @@ impl InferContext {
         // Get all constructors required for the scrutinee type
         let required_constructors = self.get_all_constructors(scrutinee_ty);
 
-        // If there are no constructors (e.g., primitive types), no exhaustiveness check needed
+        // If there are no constructors (e.g., primitive types), no exhaustiveness check needed,
+        // except for numbers: no finite set of literal patterns covers them, so without a `_` arm
+        // there are values that match no arm (and the code generators emit no default block).
         if required_constructors.is_empty() {
-            return None;
+            let is_number = matches!(
+                scrutinee_ty.to_type(),
+                Type::Primitive(PType::Numeric) | Type::Primitive(PType::Int)
+            );
+            let has_default = arms.iter().any(|arm| {
+                matches!(
+                    &arm.pattern,
+                    crate::ast::MatchPattern::Wildcard | crate::ast::MatchPattern::Variable(_)
+                )
+            });
+            return (is_number && !has_default).then(|| vec!["_".to_symbol()]);
         }
 
         // Check if there's a wildcard pattern (covers everything)
